@@ -348,9 +348,9 @@ def rule_w2(ctx) -> RuleResult:
                 st = pr.setter
                 if st is None or name in IDENTITY:
                     continue
-                summ = eng.analyse(st, K)
-                own = ("self", "_" + name) in summ.stores
-                fallback = [r for (rv, r, _, _) in summ.persists if rv == "self" and r is not None and r not in t.routes]
+                stores_t, persists_t = _transitive_effects(eng, st, K)
+                own = ("self", "_" + name) in stores_t
+                fallback = [r for (rv, r) in persists_t if rv == "self" and r is not None and r not in t.routes]
                 if not (own and fallback):
                     continue
                 ok = name in amap_vals or name in NOT_PERSISTED_BY_DESIGN
@@ -430,6 +430,36 @@ def _getter_before_backing_field(ctx, wa) -> bool:
     pub = reads("pub")
     free = reach(g, [g.entry], avoid=lambda n: has_call(n, pub))
     return all(has_call(n, pub) or n not in free for n in priv_nodes)
+
+
+def _transitive_effects(eng, fn, K, _stack=()):
+    """(stores, persists) of a function resolved on K, the helper methods it delegates to included (not the setters of other
+    attributes): {(receiver, field)}, [(receiver, route)] — a store or a persistence call moved into a helper is still the setter's."""
+    key = ("transitive", fn, K)
+    if key in eng._memo:
+        return eng._memo[key]
+    if fn in _stack or len(_stack) > eng.max_depth:
+        return set(), []
+    stores, persists = set(), []
+    g = eng.cfg(fn)
+    aliases = eng._aliases(fn, K)
+    for n in g.nodes:
+        if n.kind in ("entry", "exit", "rexit", "withexit", "break", "continue", "def", "except") or n.ast is None or isinstance(n.ast, list):
+            continue
+        for ev in eng.events(fn, K, n.ast, aliases):
+            if ev[0] == "store":
+                stores.add((ev[1], ev[2]))
+            elif ev[0] == "persist":
+                if (ev[1], ev[2]) not in persists:
+                    persists.append((ev[1], ev[2]))
+            elif ev[0] == "call":
+                if ev[1].kind == "setter" and ev[1].prop != fn.prop:
+                    continue  # another attribute's setter: its store and its persistence call are that attribute's business
+                s2, p2 = _transitive_effects(eng, ev[1], K, _stack + (fn,))
+                stores |= s2
+                persists += [x for x in p2 if x not in persists]
+    eng._memo[key] = (stores, persists)
+    return eng._memo[key]
 
 
 # in-memory knobs whose setters call update_attribute although the format has no slot for them
@@ -1092,6 +1122,72 @@ def _removals(x, derived):
     return [(h, k) for h, k in out if _root_name(h) in derived]
 
 
+def _reach_tracking_objects(ctx, fn, g, starts, var, facts, avoid):
+    """kinds.reach with one more kind of knowledge: locals that certainly hold an object (not None) at a point — bound there
+    from a constructor of a package class (a NamedTuple / record built around the node found), a tuple / list / dict
+    literal, a non-None constant, or a copy of such a local — on every feasible path.  `if target is None: return` after
+    `target = DataTarget(handle, name)` is then as dead as `if handle is None: return` under the fact that the node was found.
+    The facts given by the caller hold throughout; the tracked set is joined by intersection."""
+    from collections import deque
+
+    from ..kinds import feasible_succ
+
+    p = ctx.p
+    base = {k[len("notnone:"):] for k, v_ in facts.items() if k.startswith("notnone:") and v_ is True}
+
+    def surely_object(e, st):
+        if isinstance(e, (ast.Tuple, ast.List, ast.Dict, ast.Set, ast.JoinedStr)):
+            return True
+        if isinstance(e, ast.Constant):
+            return e.value is not None
+        if isinstance(e, ast.Name):
+            return e.id in st or e.id in base
+        if isinstance(e, ast.Call) and isinstance(e.func, (ast.Name, ast.Attribute)):
+            r = p.resolve_expr(fn.module, e.func)
+            return bool(r and r[0] == "class")
+        return False
+
+    def transfer(n, st):
+        a = n.ast
+        if a is None or isinstance(a, list):
+            return st
+        if n.kind == "stmt" and isinstance(a, (ast.Assign, ast.AnnAssign)) and a.value is not None:
+            tgs = a.targets if isinstance(a, ast.Assign) else [a.target]
+            if len(tgs) == 1 and isinstance(tgs[0], ast.Name):
+                return (st | {tgs[0].id}) if surely_object(a.value, st) else (st - {tgs[0].id})
+        src = a.items if n.kind == "with" else [a]
+        bound = set()
+        for s_ in src:
+            for x in ast.walk(s_.optional_vars if n.kind == "with" and s_.optional_vars is not None else (s_ if n.kind != "with" else ast.Pass())):
+                if isinstance(x, ast.Name) and isinstance(x.ctx, (ast.Store, ast.Del)):
+                    bound.add(x.id)
+        return st - bound if bound else st
+
+    IN = {}
+    work = deque()
+    for s_ in starts:
+        IN[s_] = frozenset()
+        work.append(s_)
+    while work:
+        n = work.popleft()
+        st = IN[n]
+        if avoid(n):
+            continue
+        out = frozenset(transfer(n, set(st)))
+        f2 = dict(facts)
+        f2.update({"notnone:" + x: True for x in st})
+        for m, _lab in feasible_succ(n, var, f2):
+            if m not in IN:
+                IN[m] = out
+                work.append(m)
+            else:
+                j = IN[m] & out
+                if j != IN[m]:
+                    IN[m] = j
+                    work.append(m)
+    return {n for n in IN if not avoid(n)}
+
+
 def rule_reset(ctx) -> RuleResult:
     res = RuleResult(
         "C03.RESET",
@@ -1151,7 +1247,7 @@ def rule_reset(ctx) -> RuleResult:
 
         facts = {"notnone:" + nm: True for nm in handles}
         facts.update({"notnone:" + X(ast.Name(id=nm, ctx=ast.Load())): True for nm in handles})  # the conditions are alias-expanded
-        ok = bool(deleted) and g.exit not in reach(g, [g.entry], handles[0], facts, avoid=addresses_old)
+        ok = bool(deleted) and g.exit not in _reach_tracking_objects(ctx, fn0, g, [g.entry], handles[0], facts, avoid=addresses_old)
         res.inst(f"H5Writer.{h}: the stored dataset is removed on every path that finds the entity", nontrivial=True, ok=ok)
         if not ok:
             res.find("H5Writer", h, "a normal path leaves the stored dataset in place", fn0.where,
